@@ -52,7 +52,8 @@ def required(tier):
                         'time-axis:yes', 'time-axis:no', 'heading:cardinal',
                         'heading:diagonal', 'heading:generic', 'azimuth:explicit',
                         'azimuth:from-track-point', 'history:same-hour-different-date',
-                        'history:missing-day-retried-then-file-arrives'],
+                        'history:missing-day-retried-then-file-arrives',
+                        'data-dir:percent-sign-in-path'],
             'evaluations': 800}
 
 
@@ -182,8 +183,12 @@ def run_shard(spec, rec):
             kind = rng.choice(['uniform', 'affine', 'affine', 'zero'])
             timed = rng.random() < 0.5
             fld = Field(rng, kind, timed)
-            d = hdir / f'w{k}'
+            # directory names a user may have: plain, URL-encoded blank, strftime-like, percent
+            dname = [f'w{k}', f'ERA5%20data{k}', f'%Y%m%d_{k}', f'100%_{k}', f'w {k} b'][k % 5]
+            d = hdir / dname
             d.mkdir()
+            if '%' in dname:
+                rec.cls('data-dir:percent-sign-in-path')
             lat_lo, lat_hi, lon_lo, lon_hi, p_lo, p_hi = write_file(d / '20240305.nc', fld, rng)
             wx = Weather(d)
             rec.cls(f'field:{kind}', 'time-axis:' + ('yes' if timed else 'no'))
